@@ -945,7 +945,7 @@ theorem seg_connect_refused (g : Module → Module) (s02 : State)
     have : (Spec.closes ext).contains rd.uid = true := by simpa using (mem_closes ext rd.uid).mpr hclosed
     simp only [this, if_true]
   have hsim := simOn_dead h2 hdead hgone
-  have hW : ∃ W, Spec.CoreExt others (Spec.afterBuf cfg a rd) W ∧
+  have hW : ∃ W, Spec.CoreExt othersCore (Spec.afterBuf cfg a rd) W ∧
       Spec.segment cfg a rd ext = Spec.applyDepartures W ext := by
     rcases hcases with ⟨_, hw⟩ | ⟨nm, _, hne, _⟩
     · obtain ⟨W, hseg, hform⟩ := hw hnil
@@ -1134,7 +1134,7 @@ theorem seg_connect_accepted (nm : List Nat) (s02 : State) (G : Module → Modul
       rw [hevs]
       exact sim_liveEq hb4 hleq (by rw [Spec.applyDepartures_uids, Spec.applyDepartures_uids, hu3])
         (by rw [c4, d4, hna3]) (by rw [c2, d2, hfl3]) (by rw [c1, d1, hbf3]) (by rw [c3, d3, hw3])
-    have hW : ∃ W, Spec.CoreExt others (Spec.afterBuf cfg a rd) W ∧
+    have hW : ∃ W, Spec.CoreExt othersCore (Spec.afterBuf cfg a rd) W ∧
         Spec.segment cfg a rd evs = Spec.applyDepartures W evs := by
       rcases hcases with ⟨_, hw⟩ | ⟨nm', _, hne, _⟩
       · obtain ⟨W, hseg, hform⟩ := hw hnil
@@ -1317,7 +1317,7 @@ theorem seg_connect_accepted (nm : List Nat) (s02 : State) (G : Module → Modul
           · rw [c2, d2, hfl3]; exact hY.fail
           · rw [c1, d1, hbf3]; exact hY.buf
           · rw [c3, d3, hw3]; exact hY.w
-        have hW : Spec.CoreExt others (Y.upd rd.uid (Spec.connUpd r nm m3.modId))
+        have hW : Spec.CoreExt othersCore (Y.upd rd.uid (Spec.connUpd r nm m3.modId))
             (Spec.checkDepartures cfg (Y.upd rd.uid (Spec.connUpd r nm m3.modId)) none evs) :=
           ext_others (dep_ext_fin _ evs hsim q.top.aopen q.j q.t he (Spec.CoreExt.refl [] _) none dE
             (fun u hu => by cases hu))
